@@ -43,7 +43,7 @@ func (g *Gen) useSpec(sf *specFn) {
 		if p.Name() == "" || p.Name() == "_" {
 			bn = fmt.Sprintf("p_%d", i)
 		}
-		e.bound[p.Name()] = tv{term: bn, typ: p.Type(), spec: isSpecSeqType(p.Type())}
+		e.bound[p.Name()] = tv{term: bn, typ: p.Type(), spec: isSpecSeqType(p.Type()), smap: isSpecMapType(p.Type())}
 		decls = append(decls, fmt.Sprintf("(%s %s)", bn, sorts[i]))
 		args = append(args, bn)
 		if rf := rangeFact(p.Type(), bn); rf != "" {
@@ -68,13 +68,27 @@ func (g *Gen) useSpec(sf *specFn) {
 	}
 	// proven properties of the specification function (its own contract is verified like any other function's:
 	// recursion = induction hypothesis) are available wherever it is applied
-	if sf.ct != nil && len(sf.ct.Ensures) > 0 {
+	propAx := ""
+	selfSCC := false
+	if g.top != nil {
+		if ts := g.eng.specBySSA(g.top); ts != nil && (ts == sf || g.eng.specSCC(ts.name) == g.eng.specSCC(sf.name)) {
+			// the function under verification (or one mutually recursive with it): its stated properties are what is
+			// being proved, they are available only through the induction hypothesis at recursive calls
+			selfSCC = true
+		}
+	}
+	if sf.ct != nil && len(sf.ct.Ensures) > 0 && !selfSCC {
 		pe := &evalEnv{g: g, a: &Act{g: g}, st: &State{H: map[string]string{}}, bound: map[string]tv{}, pkg: sf.pkg}
 		for k, v := range e.bound {
 			pe.bound[k] = v
 		}
 		rt := sig.Results().At(0).Type()
-		pe.bound["result"] = tv{term: app, typ: rt, spec: isSpecSeqType(rt)}
+		appLim := app
+		if len(args) > 0 {
+			// stated over the limited copy: it fires for every application (limited or not) without creating unfoldable terms
+			appLim = fmt.Sprintf("(%s_L %s)", sf.smtName, strings.Join(args, " "))
+		}
+		pe.bound["result"] = tv{term: appLim, typ: rt, spec: isSpecSeqType(rt)}
 		var pres, posts []string
 		for _, cl := range sf.ct.Requires {
 			pres = append(pres, pe.evalBool(cl.Expr))
@@ -86,16 +100,25 @@ func (g *Gen) useSpec(sf *specFn) {
 		if len(pres) > 0 {
 			prop = fmt.Sprintf("(=> (and %s) %s)", strings.Join(pres, " "), prop)
 		}
-		ax = fmt.Sprintf("(and %s %s)", ax, prop)
+		propAx = prop
 	}
 	if len(ranges) > 0 {
 		ax = fmt.Sprintf("(=> (and %s) %s)", strings.Join(ranges, " "), ax)
+		if propAx != "" {
+			propAx = fmt.Sprintf("(=> (and %s) %s)", strings.Join(ranges, " "), propAx)
+		}
 	}
 	var axiom string
 	if len(args) == 0 {
 		axiom = fmt.Sprintf("(assert %s)", ax)
+		if propAx != "" {
+			axiom += fmt.Sprintf("\n(assert %s)", propAx)
+		}
 	} else {
 		axiom = fmt.Sprintf("(assert (forall (%s) (! %s :pattern (%s))))", strings.Join(decls, " "), ax, app)
+		if propAx != "" {
+			axiom += fmt.Sprintf("\n(assert (forall (%s) (! %s :pattern ((%s_L %s)))))", strings.Join(decls, " "), propAx, sf.smtName, strings.Join(args, " "))
+		}
 	}
 	// targeted extensionality for accumulator parameters (DESIGN 5.4): two applications that differ only in an
 	// accumulator argument trigger the extensional comparison of those arguments
@@ -133,6 +156,9 @@ func (g *Gen) useSpec(sf *specFn) {
 func (g *Gen) specSort(t types.Type) string {
 	if isSpecSeqType(t) {
 		return "SSeq"
+	}
+	if isSpecMapType(t) {
+		return "SMap"
 	}
 	return g.sortOf(t)
 }
